@@ -757,7 +757,7 @@ def gen_net(g, cfg, nid):
 def gen_n(g, meta, cfg=None):
     if cfg is not None and cfg.get("nbig") and g.random() < 0.25:
         # more rows than any batch / cache threshold a wrapper is likely to use
-        big = g.choice([300, 1001, 1002, 1537])
+        big = g.choice([300, 512, 1000, 1001, 1002, 1024, 1536, 1537, 2000, 2048])      # round and binary sizes too
         return big if g.random() < 0.5 else [g.randint(1, 20) for _ in range(meta["e"] - 1)] + [big]
     r = g.random()
     if r < 0.35:
